@@ -180,6 +180,7 @@ type Spec struct {
 	GhostVars   map[string]*GhostDecl // $name
 	Guarded     map[string]string     // pkgpath.T.f -> lock field name
 	Immutable   map[string]bool       // pkgpath.T.f
+	Confined    map[string]bool       // pkgpath.T: fields are written only by the goroutine that owns the object ($owns)
 	LockInvs    map[string][]*LockInv // pkgpath.T.lockfield
 	Sorts       map[string]bool
 	TypeInvs    map[string]*TypeInv // pkgpath.T
@@ -204,6 +205,7 @@ func newSpec() *Spec {
 		TypeInvs:    map[string]*TypeInv{},
 		Preds:       map[string]*SpecFunc{},
 		Hooks:       map[string]*WriteHook{},
+		Confined:    map[string]bool{},
 		FuncTypes:   map[string]*FuncSpec{},
 	}
 }
@@ -211,7 +213,7 @@ func newSpec() *Spec {
 var topKeywords = map[string]bool{
 	"package": true, "import": true, "ghost": true, "guarded_by": true, "immutable": true,
 	"lockinv": true, "pred": true, "spec": true, "axiom": true, "lemma": true, "on": true,
-	"func": true, "pure": true, "functype": true, "sort": true, "typeinv": true,
+	"func": true, "pure": true, "functype": true, "sort": true, "typeinv": true, "confined": true,
 }
 var fnKeywords = map[string]bool{
 	"requires": true, "ensures": true, "ensures_on_panic": true, "modifies": true, "nopanic": true,
@@ -526,6 +528,12 @@ func (sp *Spec) loadSpecFile(path, prefix, pkgPath, pkgName string, assumed bool
 			}
 			for _, f := range strings.Split(parts[1], ",") {
 				sp.Immutable[pkgPath+"."+strings.TrimSpace(parts[0])+"."+strings.TrimSpace(f)] = true
+			}
+		case "confined":
+			for _, t := range strings.Split(it.text, ",") {
+				if t = strings.TrimSpace(t); t != "" {
+					sp.Confined[pkgPath+"."+t] = true
+				}
 			}
 		case "lockinv":
 			// lockinv T.lock(x): expr
